@@ -24,11 +24,11 @@ pub fn family(tier: Tier, f: &mut dyn FnMut(&'static str, G)) {
     // T: every tree <= k nodes over a colliding vocabulary
     let vt = Vocab { descrs: vec![], ..Vocab::basic(vec![lit("a"), lit("ab"), E::r("U"), p1()]) };
     let en = Enumerator::new(vt, 3);
-    en.for_each_upto(tier.pick(3, 4), &mut |e| f("T", call(e.clone())));
+    en.for_each_upto(tier.pick(2, 4), &mut |e| f("T", call(e.clone())));
     // W: within-word expressions, alone and followed by a word
     let vw = Vocab { descrs: vec![], word: false, ..Vocab::basic(vec![lit("a"), lit("b"), lit("x="), E::r("U"), p2()]) };
     let enw = Enumerator::new(vw, 3);
-    for n in 1..=tier.pick(3, 4) {
+    for n in 1..=tier.pick(2, 4) {
         enw.for_each(n, true, &mut |w| {
             let word = E::Word(vec![lit("--o="), w.clone()]);
             f("W", call(word.clone()));
@@ -36,21 +36,26 @@ pub fn family(tier: Tier, f: &mut dyn FnMut(&'static str, G)) {
         });
     }
     // F: fallbacks
-    let vf = Vocab { descrs: vec![], word: false, fb: false, ..Vocab::basic(vec![lit("a"), lit("b"), E::r("U"), p1()]) };
-    let enf = Enumerator::new(vf, 2);
-    let mut small = vec![];
-    enf.for_each_upto(tier.pick(1, 2), &mut |e| small.push(e.clone()));
-    small.push(E::Word(vec![lit("x="), E::Alt(vec![lit("c"), lit("d")])]));
-    small.push(E::Seq(vec![lit("a"), lit("c")]));
+    let mut small: Vec<E> = vec![lit("a"), E::r("U"), p1(), E::Word(vec![lit("x="), E::Alt(vec![lit("c"), lit("d")])])];
+    if tier == Tier::Thorough {
+        let vf = Vocab { descrs: vec![], word: false, fb: false, ..Vocab::basic(vec![lit("a"), lit("b"), E::r("U"), p1()]) };
+        let enf = Enumerator::new(vf, 2);
+        small.clear();
+        enf.for_each_upto(2, &mut |e| small.push(e.clone()));
+        small.push(E::Word(vec![lit("x="), E::Alt(vec![lit("c"), lit("d")])]));
+        small.push(E::Seq(vec![lit("a"), lit("c")]));
+    }
     for x in &small {
         for y in &small {
             f("F", call(E::Fb(vec![x.clone(), y.clone()])));
-            f("F", call(E::Seq(vec![E::Fb(vec![x.clone(), y.clone()]), lit("t")])));
+            if tier == Tier::Thorough || x != y {
+                f("F", call(E::Seq(vec![E::Fb(vec![x.clone(), y.clone()]), lit("t")])));
+            }
         }
     }
-    for x in small.iter().take(3) {
-        for y in small.iter().take(3) {
-            for z in small.iter().take(3) {
+    for x in small.iter().take(tier.pick(2, 3)) {
+        for y in small.iter().take(tier.pick(2, 3)) {
+            for z in small.iter().take(tier.pick(2, 3)) {
                 f("F", call(E::Fb(vec![x.clone(), y.clone(), z.clone()])));
             }
         }
@@ -58,7 +63,7 @@ pub fn family(tier: Tier, f: &mut dyn FnMut(&'static str, G)) {
     // P: probes at every position of small trees
     let vp = Vocab { descrs: vec![], ..Vocab::basic(vec![lit("a"), p1(), p2()]) };
     let enp = Enumerator::new(vp, 3);
-    enp.for_each_upto(3, &mut |e| {
+    enp.for_each_upto(tier.pick(2, 3), &mut |e| {
         if e.any(|x| matches!(x, E::Cmd(_))) {
             f("P", call(E::Seq(vec![e.clone(), lit("t")])));
         }
@@ -74,14 +79,19 @@ pub fn family(tier: Tier, f: &mut dyn FnMut(&'static str, G)) {
     f("C", call(E::Word(vec![lit("--color="), E::Alt(vec![lit("always"), lit("never"), lit("auto")])])));
     f("C", call(E::Seq(vec![E::Word(vec![lit("--color="), E::Alt(vec![lit("always"), lit("never")])]), lit("foo")])));
     f("C", call(E::Seq(vec![p1(), lit("bar")])));
+    // prefixes holding the same word-break character more than once / several different ones
+    f("C", call(E::Seq(vec![E::Word(vec![lit("k=v="), E::Alt(vec![lit("1"), lit("2")])]), lit("t")])));
+    f("C", call(E::Word(vec![lit("h:p:"), E::Alt(vec![lit("x"), lit("y@z")])])));
+    f("C", call(E::Alt(vec![lit("a=b:c"), lit("a=b:d"), lit("a:e")])));
     f("C", call(E::Seq(vec![E::Many(Box::new(E::Alt(vec![lit("a"), lit("b")]))), E::Opt(Box::new(lit("c")))])));
 }
 
 pub fn run(tier: Tier) -> Report {
     let mut rep = Report::new("C01", tier, "model_checking");
     let (defs, probes) = std_probes();
-    let depth = tier.pick(3, 4);
+    let depth = tier.pick(2, 4);
     let max_traces = tier.pick(400, 2000);
+    let lean = tier == Tier::Quick;
     let mut grammars: Vec<(&'static str, G)> = vec![];
     let mut seen: BTreeSet<String> = BTreeSet::new();
     family(tier, &mut |fam, g| {
@@ -109,7 +119,7 @@ pub fn run(tier: Tier) -> Report {
         machinery: Vec<String>,
     }
     let results = crate::par::run(
-        4,
+        2,
         |push| {
             for g in grammars {
                 push(g);
@@ -130,7 +140,7 @@ pub fn run(tier: Tier) -> Report {
             per_family: BTreeMap::new(),
             machinery: vec![],
         },
-        |st, (fam, g): (&'static str, G)| match run_grammar(&g, defs_ref, probes_ref, depth, max_traces, true, &st.scratch) {
+        |st, (fam, g): (&'static str, G)| match run_grammar(&g, defs_ref, probes_ref, depth, max_traces, true, lean, &st.scratch) {
             Ok(run) => {
                 st.accepted += 1;
                 *st.per_family.entry(fam).or_default() += 1;
